@@ -159,6 +159,8 @@ def ipsc_frame(vc, slot, timeslot, call, err=None):
     vc.prove("both_decoders.same_timeslot", b1.timeslot == b2.timeslot == (1 if timeslot == "Timeslot_1" else 2))
     vc.prove("both_decoders.same_sequence_number", vc.and_(vc.eq(b1.sequence_no, seq), vc.eq(b2.sequence_no, seq)))
     vc.prove("both_decoders.same_radio_ids", vc.and_(vc.eq(b1.source_radio_id, src), vc.eq(b2.source_radio_id, src), vc.eq(b1._target_radio_id, dst), vc.eq(b2._target_radio_id, dst)))
+    # the public destination id of the burst (a property that falls back to the payload's own address when the frame says 0)
+    vc.prove("both_decoders.public_target_id_is_the_frame_destination", vc.implies(vc.not_(vc.eq(dst, 0)), vc.and_(vc.eq(b1.target_radio_id, dst), vc.eq(b2.target_radio_id, dst))))
     vc.prove("both_decoders.same_colour_code", vc.and_(vc.eq(b1.hytera_ipsc.color_code, cc), vc.eq(b2.hytera_ipsc.color_code, cc)))
     # the decoded frame that travels with the burst serialises to the original octets as well
     vc.prove("both_decoders.frame_attached_to_the_burst_reserialises_to_the_original_72_octets", vc.and_(vc.eq(b1.hytera_ipsc.as_ipsc_bytes(), keep), vc.eq(b2.hytera_ipsc.as_ipsc_bytes(), keep)))
